@@ -508,7 +508,37 @@ impl<'a> TransactionRebase<'a> {
                 }
                 // Although some of the rows we indexed may have been deleted / moved,
                 // row ids are still valid, so we allow this optimistically.
-                Operation::Delete { .. } | Operation::Update { .. } => Ok(()),
+                Operation::Delete { .. } => Ok(()),
+                // ... unless the update rewrote, in place, a column we indexed in a fragment
+                // we indexed: the index was built from the old values of that fragment.
+                Operation::Update {
+                    updated_fragments,
+                    fields_modified,
+                    ..
+                } => {
+                    let indexed_values_rewritten = new_indices
+                        .iter()
+                        .filter(|idx| idx.name != FRAG_REUSE_INDEX_NAME)
+                        .any(|idx| {
+                            idx.fields
+                                .iter()
+                                .any(|field| fields_modified.contains(&(*field as u32)))
+                                && updated_fragments.iter().any(|fragment| {
+                                    idx.fragment_bitmap
+                                        .as_ref()
+                                        .is_some_and(|bitmap| bitmap.contains(fragment.id as u32))
+                                })
+                        });
+                    if indexed_values_rewritten {
+                        Err(self.retryable_conflict_err(
+                            other_transaction,
+                            other_version,
+                            location!(),
+                        ))
+                    } else {
+                        Ok(())
+                    }
+                }
                 // Merge, reserve, and project don't change row ids, so this should be fine.
                 // (Whether the indexed fields survived a concurrent drop or cast is checked
                 // against the current schema when the manifest is built.)
